@@ -26,18 +26,18 @@ CLAIMS['C35'] = dict(engine='pyvc (E1) + rtc (E3)', category='proof',
 
 CLAIMS['C18'] = dict(engine='pyvc (E1: AST -> VCs -> z3) + pyframe ownership typing (E2b) + rtc (E3)', category='exploration',
     technique='contract of maptranslation (the search behind every symmetry operation: a returned atom mapping has one entry per atom and every entry matches under the returned translation, for every meaning of the floating-point tests) discharged by z3 from the extracted source with invariants for the four nested loops; ownership contract of Crystal.__init__ / incell on the extracted AST (the crystal shares no array with its constructor arguments, nested lists deep-copied: for every caller history); run-time contract on Crystal construction (group axioms, isometry, atom/spin map) over an enumerated catalogue: bounded stand-in for the contract; GroupOp algebra proved under C23',
-    text='Bounded: for every catalogue crystal (named lattices, low-symmetry, 2D, rotated settings, scalar/vector/complex spins, glide cells with several species, '
+    text='Proved (all inputs): a mapping returned by maptranslation has one entry per atom and every entry matches under the returned translation; the crystal shares no array with its constructor arguments. Bounded: for every catalogue crystal (named lattices, low-symmetry, 2D, rotated settings, scalar/vector/complex spins, glide cells with several species, '
          'NOSYM, strained) each reported operation satisfies the isometry / lattice / atom-map / spin contract and the set is a group. Not a proof.',
     note='Tolerances fixed in the contract; the catalogue is the bound.')
 
 CLAIMS['C20'] = dict(engine='rtc (E3) + symx path enumeration (E4) + pyframe ownership typing (E2b)', category='exploration',
     technique='contract of Crystal.vectlist discharged symbolically (extracted body run on a symbolic unit vector, every branch: the frame is orthonormal and orthogonal to the plane normal / equal to the line direction, modulo |n|=1); ownership contract of Crystal.VectorBasis (a new object on every call); run-time contracts with character-formula oracle on site point groups, Wyckoff orbits and invariant bases; exhaustive subgroup enumeration of the holohedries through the real Combine*/eigen code path (bounded stand-in)',
-    text='Bounded: every site of every catalogue crystal and every subgroup of Oh, D6h (3D, two orientations) and D4, D6, D2 (2D, rotated) gets orthonormal, '
+    text='Proved (every unit vector, every branch): Crystal.vectlist returns an orthonormal frame orthogonal to the plane normal / equal to the line direction; VectorBasis hands out a new object. Bounded: every site of every catalogue crystal and every subgroup of Oh, D6h (3D, two orientations) and D4, D6, D2 (2D, rotated) gets orthonormal, '
          'invariant vector and symmetric-tensor bases of exactly the dimension the character formula gives; Wyckoff sets equal brute-force orbits; adding a full orbit keeps |G|.',
     note='Character formulas trusted as definition; catalogue and listed orientations are the bound.')
 CLAIMS['C21'] = dict(engine='pyvc (E1: AST -> VCs -> z3) + rtc (E3)', category='exploration',
     technique='contract of maptranslation (the atom maps of the operations under which the jump classes are closed) discharged by z3 from the extracted source; run-time postcondition of Crystal.jumpnetwork against an independent brute-force window enumeration (bounded stand-in)',
-    text='Bounded: on every catalogue crystal/species and the first shells, with scalar and per-species obstruction distances, the network equals the brute-force jump set, '
+    text='Proved (all inputs): a mapping returned by maptranslation really maps (the atom maps of the operations the classes are closed under). Bounded: on every catalogue crystal/species and the first shells, with scalar and per-species obstruction distances, the network equals the brute-force jump set, '
          'each jump once, classes are single orbits closed under the space group and reversal, and the lattice form encodes the same jumps.',
     note='Cutoffs/obstruction distances drawn midway between distinct distances; default distance 0 excludes paths through a site (code semantics).')
 
@@ -66,32 +66,32 @@ CLAIMS['C36'] = dict(engine='symx (E4) + rtc (E3) + structural AST contracts', c
 
 CLAIMS['C24'] = dict(engine='rtc (E3) + pyframe ownership typing (E2b)', category='exploration',
     technique='run-time postconditions of StarSet construction/addition/difference against a BFS + brute-force-orbit spec (bounded stand-in); ownership contracts of StarSet.copy / __iadd__ / __add__ on the extracted AST (a copy or sum shares no mutable container with its operands, nested lists are deep-copied: operands stay unchanged, for every history); PairState algebra it rests on is proved in C23/C36',
-    text='Bounded: on every catalogue crystal, ranges 1..2 (3 where small), with and without origin states: states equal the BFS-reachable non-zero states, stars are complete orbits, '
+    text='Proved (every history): a copied or summed StarSet shares no mutable container with its operands. Bounded: on every catalogue crystal, ranges 1..2 (3 where small), with and without origin states: states equal the BFS-reachable non-zero states, stars are complete orbits, '
          'index lookups agree, s1+s2 equals generate(N1+N2) and leaves its operands unchanged, difference sets contain exactly the endpoint differences.',
     note='Catalogue and ranges are the bound.')
 CLAIMS['C25'] = dict(engine='rtc (E3) + symx path enumeration (E4) + pyframe ownership typing (E2b)', category='exploration',
     technique='contract of Crystal.vectlist (frames of the origin-state vector stars) discharged symbolically for every unit vector and branch; ownership contract of Crystal.VectorBasis (what FullVectorBasis normalises in place is never stored state); run-time postconditions of VectorStarSet.generate/generateouter/GFexpansion with character-formula oracle and direct assembly (bounded stand-in)',
-    text='Bounded: Gram matrix = 1, every vector star is an equivariant field on one complete star, their number equals the total invariant dimension of the stabilisers, '
+    text='Proved (every unit vector): Crystal.vectlist returns an orthonormal frame; VectorBasis hands out a new object on every call. Bounded: Gram matrix = 1, every vector star is an equivariant field on one complete star, their number equals the total invariant dimension of the stabilisers, '
          'outer products are direct sums, the GF expansion equals the projected directly assembled matrix.',
     note='rate/bias/bare expansions are only exercised end-to-end (C06); catalogue, N <= 2.')
 CLAIMS['C26'] = dict(engine='pyvc (E1: AST -> VCs -> z3) + rtc (E3)', category='exploration',
     technique='contract of StarSet.symmequivjumplist, the builder of every omega1 / omega2 class (the jump first, each (initial, final) pair once, closed under reversal, the image under every operation present with its displacement, nothing else), discharged by z3 from the extracted source for every group action (uninterpreted) and every group size; run-time postconditions of jumpnetwork_omega1/omega2 and of the pruning in VacancyMediated.generate against brute-force enumeration (bounded stand-in)',
-    text='Bounded: every vacancy jump with the solute fixed (resp. every exchange) inside the star set is in exactly one class; classes are closed under the space group and reversal; '
+    text='Proved (every group action and size): symmequivjumplist lists the jump first, each (initial, final) pair once, is closed under reversal, contains the image under every operation and nothing else. Bounded: every vacancy jump with the solute fixed (resp. every exchange) inside the star set is in exactly one class; classes are closed under the space group and reversal; '
          'dx is the vacancy displacement; the pruned omega1 list is exactly the classes touching the thermodynamic range.',
     note='Catalogue crystals, Nthermo 1..2.')
 
 CLAIMS['C31'] = dict(engine='symbolic execution of the real Cluster class on sympy lattice vectors (E4) + rtc (E3)', category='exploration',
     technique='identity of clusters: the real Cluster.__init__ / __eq__ / __hash__ run on sites with symbolic integer lattice vectors, invariance under a common symbolic translation and under every reordering of the non-special sites and the stored normal form decided by structural equality, for every label pattern of up to 4 sites and every kind of cluster (level S, all lattice vectors); run-time postcondition of makeclusters against brute-force enumeration; closure contracts on TS/vacancy clusters; Cluster identity laws (structural proof in C36)',
-    text='Bounded: catalogue crystals, first shells, order <= 3, with and without excluded species: generated cluster sets are exactly the site sets within the cutoff, each once, grouped in complete disjoint orbits; '
+    text='Symbolic (all lattice vectors, label patterns of up to 4 sites): cluster equality and hash are invariant under a common translation and under reordering of the non-special sites. Bounded: catalogue crystals, first shells, order <= 3, with and without excluded species: generated cluster sets are exactly the site sets within the cutoff, each once, grouped in complete disjoint orbits; '
          'TS and vacancy cluster sets are closed under symmetry (and reversal); equality/hash are invariant under translation and reordering.',
     note='Catalogue, cutoffs and order are the bound.')
 CLAIMS['C32'] = dict(engine='pyvc (E1: AST -> VCs -> z3) + rtc (E3)', category='exploration',
     technique='contracts of the site addressing every evaluator uses, ClusterSupercell.index and ciR (encode / decode pair: position = cell x sites-per-cell + site on the right sublattice stride, in range, and ciR of it returns the site and cell), discharged by z3 from the extracted source with proved integer division lemmas; run-time contract shared by the four evaluators against a brute-force cluster sum, exhaustive over occupations of small supercells (thorough)',
-    text='Bounded: on the sampler catalogue, for every (thorough) / sampled (quick) mobile occupation: cluster counter, index-matrix expansion, interaction-list evaluator and sampler energy equal the brute-force sum to 1e-10.',
+    text='Proved (all supercell sizes and site counts): ClusterSupercell.index / ciR are an encode / decode pair with the stride of the right sublattice. Bounded: on the sampler catalogue, for every (thorough) / sampled (quick) mobile occupation: cluster counter, index-matrix expansion, interaction-list evaluator and sampler energy equal the brute-force sum to 1e-10.',
     note='Sampler catalogue is the bound.')
 CLAIMS['C34'] = dict(engine='pyvc (E1: AST -> VCs -> z3) + rtc (E3)', category='exploration',
     technique='contracts of the site addressing the barrier evaluators use (ClusterSupercell.index / ciR, encode / decode pair) discharged by z3 from the extracted source; run-time postcondition of MonteCarloSampler.transitions (detailed balance, reverse transition reported), exhaustive over occupations of small supercells (thorough)',
-    text='Bounded: for every occupation and every reported transition the final configuration reports the reverse transition with opposite displacement and Q - Q_rev = E_final - E_initial (1e-9), with KRA values, TS clusters, spectators, and a vacancy.',
+    text='Proved (all supercell sizes and site counts): the site addressing of the barrier evaluators (index / ciR) is an encode / decode pair. Bounded: for every occupation and every reported transition the final configuration reports the reverse transition with opposite displacement and Q - Q_rev = E_final - E_initial (1e-9), with KRA values, TS clusters, spectators, and a vacancy.',
     note='Sampler catalogue is the bound.')
 
 CLAIMS['C02'] = dict(engine='symx-lf (E4b) + rtc (E3)', category='exploration',
@@ -100,7 +100,7 @@ CLAIMS['C02'] = dict(engine='symx-lf (E4b) + rtc (E3)', category='exploration',
     note='CTMC formula trusted as definition; catalogue and seeded data are the bound.')
 CLAIMS['C03'] = dict(engine='symx lazy fractions (E4b) + rtc (E3)', category='exploration',
     technique='interstitial tensors: the real Interstitial.diffusivity run on symbolic prefactors and energies (exact lazy-fraction scalars), symmetry in the Cartesian indices and invariance under every point-group rotation of D, its uncorrelated part and the barrier output decided as identities in all rates (coefficient tolerance 1e-9), one run per catalogue network (level S); self-certifying run-time postconditions (symmetry, point-group invariance, positive semidefiniteness) on both calculators; bounded stand-in with known findings',
-    text='Bounded: tensors returned by Interstitial.diffusivity / elastodiffusion and VacancyMediated.Lij over the catalogue with rate ratios up to e^8. Known findings: Lsv/L1vv asymmetric on low-symmetry crystals, Lss with a negative eigenvalue on one 2D cell.',
+    text='Symbolic (per catalogue network, all prefactors and energies): the interstitial D, its uncorrelated part and the barrier output are symmetric and invariant under every point-group rotation. Bounded: tensors returned by Interstitial.diffusivity / elastodiffusion and VacancyMediated.Lij over the catalogue with rate ratios up to e^8. Known findings: Lsv/L1vv asymmetric on low-symmetry crystals, Lss with a negative eigenvalue on one 2D cell.',
     note='Tolerances 1e-8 (1e-5 with origin states: integration accuracy).')
 CLAIMS['C04'] = dict(engine='pyframe degree typing (E2) + symx-lf (E4b) + rtc (E3)', category='exploration',
     technique='reference-choice invariances (joint vacancy / solute prefactor scaling, energy-temperature co-scaling) and rate covariance as degree contracts checked statement by statement on the extracted AST of preene2betafree, _symmetricandescaperates, Lij, the Green-function calculator and the Interstitial rate functions (every sum, comparison, branch condition and cutoff relates equal degrees: all inputs, all crystals); relational contracts: for the interstitial calculator the real source is executed on symbolic data and shift / prefactor / rate-scaling invariances are decided as exact rational-function identities per enumerated network; relational run-time contracts (energy shifts, joint prefactor scaling, energy/temperature co-scaling, rate scaling; reused and fresh calculators) as bounded stand-in for both calculators',
@@ -112,7 +112,7 @@ CLAIMS['C06'] = dict(engine='pyvc (E1) + pyframe degree typing (E2) + rtc (E3)',
     note='Nthermo 1 (quick).')
 CLAIMS['C08'] = dict(engine='pyframe degree typing (E2) + rtc (E3)', category='exploration',
     technique='contract of Crystal.vectlist (origin-state frames) discharged symbolically for every unit vector; degree contract of VacancyMediated.Lij checked on the extracted AST (the test that selects the omega2 algorithm and every cutoff compare quantities of equal rate degree: the selection depends on rate ratios only, for all inputs); run-time postconditions of Lij over a grid of omega2 scales with both forced algorithms as bounded stand-in with known findings',
-    text='Bounded: finiteness/symmetry of the default selection, agreement of the two algorithms for scales <= 1e6, smooth approach to the large-rate limit (1e-3). Known findings: drift at 1e15/1e16, blow-up and disagreement on crystals with origin states, disagreement on low-symmetry crystals.',
+    text='Proved (every unit vector): Crystal.vectlist returns an orthonormal frame (origin-state vectors); the selection of the omega2 algorithm compares quantities of equal rate degree. Bounded: finiteness/symmetry of the default selection, agreement of the two algorithms for scales <= 1e6, smooth approach to the large-rate limit (1e-3). Known findings: drift at 1e15/1e16, blow-up and disagreement on crystals with origin states, disagreement on low-symmetry crystals.',
     note='Scale grid and catalogue are the bound; constants fixed in DESIGN.md.')
 CLAIMS['C11'] = dict(engine='symx-lf (E4b) + rtc (E3)', category='exploration',
     technique='barrier output == -dD/dbeta decided symbolically (real source on symbolic prefactors/energies, exact polynomial arithmetic, coefficient tolerance for floating-point geometry) per enumerated network; run-time postconditions: barrier output vs 4th-order finite difference in beta; dipoles vs group-average projection spec; elastodiffusion vs finite difference of the exact CTMC diffusivity under strain; bounded stand-in',
@@ -131,7 +131,7 @@ CLAIMS['C13'] = dict(engine='rtc (E3)', category='exploration',
 
 CLAIMS['C14'] = dict(engine='pyframe ownership typing (E2b) + rtc (E3)', category='exploration',
     technique='ownership contracts of VacancyMediated.Lij checked statement by statement on the extracted AST (every returned array is fresh, memoised arrays are private or never handed out, no shared array is modified in place, the Green-function calculator only re-binds D and eta): for every call history; run-time history contracts (the result after any call/cache/regeneration history equals the result of a freshly built calculator) as bounded stand-in',
-    text='Bounded: Lij is a function of its arguments alone over seeded histories (repeated calls, interleaved data sets, cache hits, regeneration to another range, saved-and-reloaded calculators), '
+    text='Proved (every call history): what Lij returns shares no storage with state that outlives the call, memoised arrays are private or never handed out, no shared array is modified in place. Bounded: Lij is a function of its arguments alone over seeded histories (repeated calls, interleaved data sets, cache hits, regeneration to another range, saved-and-reloaded calculators), '
          'and inputs and cached arrays are not modified.',
     note='Catalogue crystals, seeded histories of bounded length.')
 
@@ -143,7 +143,7 @@ CLAIMS['C15'] = dict(engine='rtc (E3)', category='exploration',
 
 CLAIMS['C27'] = dict(engine='pyvc (E1: AST -> VCs -> z3) + rtc (E3)', category='exploration',
     technique='contract of Supercell.equivalencemap (soundness: a returned operation is one of the group and carries the occupation of self onto other, the returned mapping satisfies the reorder relation) discharged by z3 from the extracted source with loop invariants for the search, the occupation buffer and the mapping construction, for every supercell size, group and pair of occupations; run-time postconditions of Supercell construction and index/position maps against brute-force enumeration of the cell contents; bounded stand-in',
-    text='Bounded: size = |det| x sites, every lattice site maps to exactly one index and back, translations are a group of permutations, group operations map to site permutations, '
+    text='Proved (all sizes, groups, occupations): an operation returned by equivalencemap is one of the group, carries self.occ onto other.occ, and the returned mapping satisfies the reorder relation. Bounded: size = |det| x sites, every lattice site maps to exactly one index and back, translations are a group of permutations, group operations map to site permutations, '
          'including left-handed and non-diagonal supercell matrices and in-place edit histories.',
     note='Catalogue crystals x seeded supercell matrices.')
 
@@ -156,7 +156,7 @@ CLAIMS['C16'] = dict(engine='symbolic execution of the real methods on sympy coe
 
 CLAIMS['C17'] = dict(engine='symx polynomial rings (E4) + rtc (E3)', category='exploration',
     technique='change of variables: the real rotatedirections / rotate / irotate run on a fully symbolic matrix and symbolic coefficients, postcondition value(rotated)(p) = value(original)(M p) decided as a polynomial identity over ZZ[M, p, c] for every (n, l) of the precondition in 2D and 3D, plus a structural obligation that rotatecoeff maps each entry on its own (level P); inversion: the real inv run on symbolic scalar / 2x2 coefficients, both products reduced to normal form modulo the unit-sphere and inverse-determinant relations, per enumerated structure (level S); floating point: run-time postconditions of rotatedirections/rotate/irotate (value at p equals original at M p) and inv (inverse times original is the identity through the requested order, both sides) against an independently written evaluator; bounded stand-in',
-    text='Bounded: random invertible non-orthogonal, orthogonal, diagonal and permutation matrices, parity-consistent reduced and un-reduced expansions, three value shapes; inversion with lead order 0..2, requested order -1..2; 2D and 3D.',
+    text='Proved (every matrix, every expansion in the precondition): rotate / irotate give value(p) = original value(M p). Symbolic (per enumerated structure): inverse times original is the identity through the requested order, scalar and 2x2 values. Bounded: random invertible non-orthogonal, orthogonal, diagonal and permutation matrices, parity-consistent reduced and un-reduced expansions, three value shapes; inversion with lead order 0..2, requested order -1..2; 2D and 3D.',
     note='Floating point at relative 2e-9.')
 
 CLAIMS['C29'] = dict(engine='rtc (E3)', category='exploration',
